@@ -47,13 +47,15 @@ func runC06(c *Ctx) {
 
 const c06UnsafeWhy = "lock-free view used by Delete: every unsafeStore is constructed where s.sync is held in W mode and does not escape (proved by the unsafeStore-construction obligation)"
 
+// c06ConstructionExempt is filled per run: unexported methods of oci.Store
+// that are provably called only on a store still private to its constructor.
+var c06ConstructionExempt map[string]string
+
 func c06GuardSpecs() []GuardSpec {
 	return []GuardSpec{
 		{Type: "~/internal/resolver.Memory", Fields: []string{c05Cur.F("resolver.index"), c05Cur.F("resolver.tags")}, Lock: c05Cur.F("resolver.lock")},
 		{Type: "~/content/oci.Store", Fields: []string{c05Cur.F("oci.storage"), c05Cur.F("oci.tagResolver"), c05Cur.F("oci.graph")}, Lock: c05Cur.F("oci.sync"), Exempt: c06UnsafeExempt()},
-		{Type: "~/content/oci.Store", Fields: []string{c05Cur.F("oci.index")}, Lock: c05Cur.F("oci.indexLock"), Exempt: map[string]string{
-			"(*~/content/oci.Store).loadIndexFile": "construction: called only from NewWithContext on a store that is not yet shared (checked by the construction-only obligation)",
-		}},
+		{Type: "~/content/oci.Store", Fields: []string{c05Cur.F("oci.index")}, Lock: c05Cur.F("oci.indexLock"), Exempt: c06ConstructionExempt},
 		{Type: c05Cur.T("file.nameStatus"), Fields: []string{c05Cur.F("file.status.exists")}, Lock: c05Cur.F("file.status.lock")},
 	}
 }
@@ -187,6 +189,10 @@ func c06GraphSpec() GuardSpec {
 
 func c06R1(c *Ctx) {
 	const R = "C06.R1.guarded-by"
+	c06ConstructionExempt = map[string]string{}
+	for f := range c06ConstructionOnlyFns(c) {
+		c06ConstructionExempt[FnName(f)] = "construction: only called (statically, not via go/defer, never as a value) on a store that is still private to its constructor"
+	}
 	c.Expect(R, 55) // 67 on the pinned tree; an accessor method contributes 1-3 obligations
 	// anchors: guarded fields and their mutexes must exist
 	for _, sp := range append(c06GuardSpecs(), c06GraphSpec()) {
@@ -210,7 +216,6 @@ func c06R1(c *Ctx) {
 	pkgs := []string{"internal/resolver", "internal/graph", "content/oci", "content/file", "content/memory"}
 	LockCheck(c, R, c06WithLockExempts(c, R, append(c06GuardSpecs(), c06GraphSpec()), pkgs), pkgs)
 	c06UnsafeStore(c, R)
-	c06ConstructionOnly(c, R, "(*~/content/oci.Store).loadIndexFile")
 	c06BlobRemovalExclusive(c, R)
 }
 
@@ -386,45 +391,39 @@ func c06UnsafeStore(c *Ctx, R string) {
 // c06ConstructionOnly: fn is only called (statically) with a receiver that is
 // fresh in the caller (object under construction), never exported, never
 // stored as a method value.
-func c06ConstructionOnly(c *Ctx, R, name string) {
-	var fn *ssa.Function
-	for _, f := range c.P.FuncsOfPkg("content/oci") {
-		if FnName(f) == name {
-			fn = f
+// c06ConstructionOnlyFns: the unexported functions of content/oci that are
+// only ever called on a receiver still under construction in the caller
+// (never exported, never via go/defer, never taken as a value).
+func c06ConstructionOnlyFns(c *Ctx) map[*ssa.Function]bool {
+	out := map[*ssa.Function]bool{}
+	all := c05ModuleFuncs(c.P)
+	for _, fn := range c.P.FuncsOfPkg("content/oci") {
+		if fn.Parent() != nil || fn.Object() == nil || fn.Object().Exported() || fn.Signature.Recv() == nil {
+			continue
+		}
+		ok, ncall := true, 0
+		for _, f := range all {
+			AllInstrs(f, func(in ssa.Instruction) {
+				call, isCall := in.(ssa.CallInstruction)
+				if isCall && StaticCallee(call) == fn {
+					ncall++
+					if _, isPlain := in.(*ssa.Call); !isPlain || !pathIsFresh(accessPath(call.Common().Args[0])) {
+						ok = false
+					}
+					return
+				}
+				for _, op := range in.Operands(nil) {
+					if *op == ssa.Value(fn) && !(isCall && call.Common().Value == ssa.Value(fn)) {
+						ok = false
+					}
+				}
+			})
+		}
+		if ok && ncall > 0 {
+			out[fn] = true
 		}
 	}
-	if fn == nil {
-		c.OK(R, name+"|construction-only", token.NoPos, "function no longer exists; exemption unused")
-		return
-	}
-	ok, why := fn.Object() != nil && !fn.Object().Exported(), "exported"
-	ncall := 0
-	for _, f := range c05ModuleFuncs(c.P) {
-		AllInstrs(f, func(in ssa.Instruction) {
-			call, isCall := in.(ssa.CallInstruction)
-			if isCall && StaticCallee(call) == fn {
-				ncall++
-				if _, isPlain := in.(*ssa.Call); !isPlain {
-					ok, why = false, "called via go/defer in "+FnName(f)
-				}
-				if !pathIsFresh(accessPath(call.Common().Args[0])) {
-					ok, why = false, "called from "+FnName(f)+" on a receiver that is not under construction"
-				}
-				return
-			}
-			// method value / closure reference
-			for _, op := range in.Operands(nil) {
-				if *op == ssa.Value(fn) && !(isCall && call.Common().Value == ssa.Value(fn)) {
-					ok, why = false, "taken as a value in "+FnName(f)
-				}
-			}
-		})
-	}
-	if ncall == 0 {
-		ok, why = false, "no static caller"
-	}
-	c.Check(R, name+"|construction-only", fn.Pos(), ok,
-		ifelse(ok, "only called on a store that is still private to its constructor", "the function that touches s.index without indexLock is "+why))
+	return out
 }
 
 // ---------------------------------------------------------------- R2 helpers
